@@ -8,16 +8,19 @@
 (*   snap(used, free)  consistent view of the pool at a scheduling point     *)
 (*   deadlock      all live threads are blocked                             *)
 (*   end           all threads are done                                     *)
-(* header [max]                                                             *)
+(*   tick(d)       virtual time passes (sequential pool histories of C09)    *)
+(* header [max, idle]   (idle = idle_timeout, 0: connections never expire)   *)
 (***************************************************************************)
-EXTENDS Naturals, Sequences, FiniteSets
+EXTENDS Naturals, Integers, Sequences, FiniteSets
 
 SeqSet(s) == { s[i] : i \in DOMAIN s }
 NoDup(s) == Cardinality(SeqSet(s)) = Len(s)
 
 QMonInit(h) == [max |-> h.max, held |-> [o \in {} |-> 0], closed |-> [o \in {} |-> 0], created |-> {},
                 inget |-> {}, sawfull |-> {}, used |-> <<>>, free |-> <<>>,
-                deadatcall |-> [t \in {} |-> {}]]        \* connections already closed when thread t called get
+                deadatcall |-> [t \in {} |-> {}],        \* connections already closed when thread t called get
+                idle |-> IF "idle" \in DOMAIN h THEN h.idle ELSE 0, now |-> 0,
+                rel |-> [o \in {} |-> 0]]                \* time of the last release of a connection
 Get(f, x) == IF x \in DOMAIN f THEN f[x] ELSE 0
 Set(f, x, v) == [y \in DOMAIN f \cup {x} |-> IF y = x THEN v ELSE f[y]]
 
@@ -30,14 +33,18 @@ QMonClauses(m, ev) ==
          << <<"C08-a-connection-is-held-by-at-most-one-thread",
                   ev.m = "get" => Get(m.held, ev.o) = 0>>,
             <<"C08-a-closed-connection-is-never-handed-out",
-                  (ev.m = "get" /\ ev.t \in DOMAIN m.deadatcall) => ev.o \notin m.deadatcall[ev.t]>> >>
+                  (ev.m = "get" /\ ev.t \in DOMAIN m.deadatcall) => ev.o \notin m.deadatcall[ev.t]>>,
+            <<"C09-a-connection-idle-longer-than-the-timeout-is-never-handed-out",
+                  (ev.m = "get" /\ m.idle > 0 /\ ev.o \in DOMAIN m.rel) => ~(m.now - m.rel[ev.o] > m.idle)>> >>
+    [] ev.e = "tick" -> << >>
     [] ev.e = "raise" ->
          << <<"C08-no-internal-error-from-the-pool",
                   ev.m = "get" /\ ev.x = "capacity" /\ ev.t \in m.sawfull>> >>
     [] ev.e = "create" -> << <<"create-new-object", ev.o \notin m.created>> >>
     [] ev.e = "close" ->
          << <<"C08-every-connection-closed-at-most-once", Get(m.closed, ev.o) = 0>>,
-            <<"C08-an-idle-pooled-connection-is-not-closed", ev.o \notin SeqSet(m.free)>> >>
+            <<"C08-an-idle-pooled-connection-is-not-closed",
+                  ev.o \notin SeqSet(m.free) \/ (m.idle > 0 /\ ev.o \in DOMAIN m.rel /\ m.now - m.rel[ev.o] > m.idle)>> >>
     [] ev.e = "deadlock" -> << <<"C08-no-schedule-deadlocks", FALSE>> >>
     [] ev.e = "end" ->
          << <<"C08-at-the-end-every-connection-is-idle-in-the-pool-or-closed-once",
@@ -55,7 +62,10 @@ QMonEffect(m, ev) ==
          ELSE IF ev.m \in {"release", "destroy"} THEN [m EXCEPT !.held = Set(m.held, ev.o, 0)]
          ELSE m
     [] ev.e = "ret" ->
-         IF ev.m = "get" THEN [m EXCEPT !.held = Set(m.held, ev.o, ev.t), !.inget = m.inget \ {ev.t}] ELSE m
+         IF ev.m = "get" THEN [m EXCEPT !.held = Set(m.held, ev.o, ev.t), !.inget = m.inget \ {ev.t}]
+         ELSE IF ev.m = "release" /\ m.idle > 0 THEN [m EXCEPT !.rel = Set(m.rel, ev.o, m.now)]
+         ELSE m
+    [] ev.e = "tick" -> [m EXCEPT !.now = m.now + ev.d]
     [] ev.e = "raise" -> [m EXCEPT !.inget = m.inget \ {ev.t}]
     [] ev.e = "create" -> [m EXCEPT !.created = m.created \cup {ev.o}]
     [] ev.e = "close" -> [m EXCEPT !.closed = Set(m.closed, ev.o, Get(m.closed, ev.o) + 1)]
